@@ -274,6 +274,37 @@ fn check_key_log2_distance() {
     kani::cover!(hi == Some(0));
 }
 
+/// C07 / C08: the routing-table key of a node IS its 32-byte node id (`From<NodeId> for Key<NodeId>`: no hashing), with the id
+/// kept as preimage; two keys are equal exactly when these 32 bytes are (hand-written `PartialEq for Key`, the preimage is
+/// not compared)
+#[kani::proof]
+#[kani::unwind(34)]
+fn check_key_from_node_id_and_eq() {
+    let a: [u8; 32] = kani::any();
+    let b: [u8; 32] = kani::any();
+    let ia = enr::NodeId::new(&a);
+    let ib = enr::NodeId::new(&b);
+    let ka: Key<enr::NodeId> = Key::from(ia);
+    let kb: Key<enr::NodeId> = Key::from(ib);
+    use enr::k256::sha2::digest::generic_array::GenericArray;
+    // the key's bytes are observed through the XOR distance to the all-zero key (check_key_log2_distance: distance = XOR)
+    let zero: Key<u8> = Key::new_raw(0u8, *GenericArray::from_slice(&[0u8; 32]));
+    let i: usize = kani::any();
+    kani::assume(i < 256);
+    assert!(bit(&ka.distance(&zero).0, i) == be_bit(&a, i), "C07.key_is_the_node_id: bit i of the key is bit i of the node id");
+    assert!(ka.preimage().raw() == a, "C07.key_is_the_node_id: the preimage is the node id");
+    let mut same = true;
+    let mut k = 0;
+    while k < 32 { if a[k] != b[k] { same = false; } k += 1; }
+    assert!((ka == kb) == same, "C07.key_eq: keys are equal iff the 32 bytes are");
+    // the preimage takes no part in the comparison
+    let kc: Key<u8> = Key::new_raw(0u8, *GenericArray::from_slice(&a));
+    let kd: Key<u8> = Key::new_raw(1u8, *GenericArray::from_slice(&a));
+    assert!(kc == kd, "C07.key_eq: the preimage is not compared");
+    kani::cover!(same);
+    kani::cover!(!same);
+}
+
 /// C08: `Distance: Ord` is the numeric order of the 256-bit XOR value, i.e. the lexicographic order of its big-endian bytes
 /// (ClosestIter sorts every batch with it; the query peer maps are keyed by it)
 #[kani::proof]
